@@ -344,6 +344,8 @@ class Program:
                     with open(os.path.join(tdir, fn), encoding="utf-8") as f:
                         self.test_sources[fn] = f.read()
         self._resolve_bases()
+        from .normalize import propagate_constants
+        propagate_constants(self)
 
     # production modules = everything except versioning boilerplate
     EXCLUDED = {"eliot._version"}
